@@ -6,7 +6,7 @@
 //!   data read ⇒ read right on every returned event type; stored ⇒ write right; schema /
 //!   user / permission management ⇒ admin.
 //! It does not look at the Lean model or at `can_read`/`can_write`.
-use crate::crypto::hmac_hex;
+use snel_db::verif::hmac_hex;
 use std::collections::{HashMap, HashSet};
 
 #[derive(Clone, Debug)]
